@@ -10,11 +10,14 @@
    protocol token, any list of header lines with any amount of SP before the value and inner/trailing spaces in
    it) and for every request framed by CONTENT-LENGTH (the same requests followed by "Content-Length: <decimal n>",
    the blank line and any n < 2^62 body bytes: the body is extracted exactly - every byte value, including CR LF and
-   text that looks like a request - and the successor starts exactly behind it), and the lifting to pipelined
-   sequences mixing both kinds. The decimal rendering is proved to be read back by the parser's integer reader
-   (C07Dec.parse_int_dec). MISSING: chunked bodies, trailers, the response side. Those are decided on every run by the differential harness against net/http
+   text that looks like a request - and the successor starts exactly behind it), for every CHUNKED request
+   ("Transfer-Encoding: chunked", any list of non-empty chunks "<hex n>\r\n<n bytes>\r\n" and the last chunk
+   "0\r\n\r\n": one body event per chunk with exactly its bytes, completion exactly behind the final CRLF), and the
+   lifting to pipelined sequences mixing the three kinds. The decimal and hexadecimal renderings are proved to be
+   read back by the parser's integer reader (C07Dec.parse_int_dec / parse_int_hex). MISSING: chunk extensions,
+   trailers, upper-case hex digits, the response side. Those are decided on every run by the differential harness against net/http
    (cmd/httpref), not by a theorem. That `meaning` coincides with what net/http extracts is tested, not proved. *)
-Require Import HttpParser C06Proofs C07Reqs C07Dec C07Body.
+Require Import HttpParser C06Proofs C07Reqs C07Dec C07Body C07Chunk C07Msg.
 From Coq Require Import List NArith ZArith Bool Lia.
 Import ListNotations.
 Open Scope N_scope.
@@ -98,12 +101,14 @@ Qed.
 (* the integer reader reads back every rendered length *)
 Theorem c07_decimal_roundtrip n : n < LIM -> parse_int 10 (dec n) = Some (Z.of_N n).
 Proof. exact (parse_int_dec n). Qed.
+Theorem c07_hex_roundtrip n : n < LIM -> parse_int 16 (hex n) = Some (Z.of_N n).
+Proof. exact (parse_int_hex n). Qed.
 
 (* non-vacuity: "POST /a HTTP/1.1\r\nContent-Length: 12\r\n\r\nGET / HTTP/1" - a body that looks like a request *)
 Example c07_example_body :
   let b := [71;69;84;32;47;32;72;84;84;80;47;49] in
   let m := {| mreq := {| rmethod := m_POST; rtarget := [47;97]; rproto := [72;84;84;80;47;49;46;49]; rhdrs := [] |};
-              mbody := Some b |} in
+              mbody := FLen b |} in
   wf_msg m /\ snd (fst (run_bytes (init false) (render_msg m) [])) = meaning_msg m /\
   In (EBody b) (meaning_msg m).
 Proof.
@@ -117,8 +122,29 @@ Proof.
   - constructor.
 Qed.
 
+(* non-vacuity, chunked: two chunks, the first one 17 bytes (size line "11") containing CR LF and "0\r\n\r\n" *)
+Example c07_example_chunked :
+  let d1 := [48;13;10;13;10;71;69;84;32;47;32;72;84;84;80;47;49] in
+  let d2 := [120] in
+  let m := {| mreq := {| rmethod := m_PUT; rtarget := [47]; rproto := [72;84;84;80;47;49;46;49]; rhdrs := [] |};
+              mbody := FChunked [d1; d2] |} in
+  wf_msg m /\ snd (fst (run_bytes (init false) (render_msg m) [])) = meaning_msg m /\
+  In (EBody d1) (meaning_msg m) /\ render_chunk d1 = [49;49;13;10] ++ d1 ++ [13;10].
+Proof.
+  split; [|split; [vm_compute; reflexivity|split; [vm_compute; tauto|vm_compute; reflexivity]]].
+  split.
+  - unfold wf_req; cbn. repeat split.
+    + vm_compute. tauto.
+    + exists 47, []. repeat split; auto.
+    + exists 72, [84;84;80;47;49;46;49]. unfold SP, CR. repeat split; try lia.
+      repeat (constructor; [lia|]). constructor.
+    + constructor.
+  - cbn [mbody]. repeat constructor; try discriminate; vm_compute; reflexivity.
+Qed.
+
 Print Assumptions c07_roundtrip_nobody_partial.
 Print Assumptions c07_pipelined_nobody_partial.
 Print Assumptions c07_roundtrip_msg_partial.
 Print Assumptions c07_pipelined_msg_partial.
 Print Assumptions c07_decimal_roundtrip.
+Print Assumptions c07_hex_roundtrip.
